@@ -492,6 +492,11 @@ func runCheck(prop, tier string, seed int) int {
 		cov["canaries"] = runCanaries(prop, &rep)
 	}
 	if tier == "thorough" {
+		if rp := regressPack(prop, &rep); rp != nil {
+			cov["regression_pack"] = rp
+		}
+	}
+	if tier == "thorough" {
 		// stability: every obligation again with two more solver seeds; a changed verdict is reported
 		var unstable []string
 		for _, sd := range []int{seed + 1, seed + 2} {
@@ -890,6 +895,103 @@ func scenarioWhy(out string) string {
 // runCanaries: the must-fail edits of selftest/corpus.json for this property, each applied to a scratch copy
 // of the tree under check; the check must report a violation on the expected obligation. A miss means the
 // machinery lost detection power: reported as UNDECIDED (never as a violation of the property).
+// regressPack (thorough tier): the demonstrations of the seeded changes recorded for this property
+// (replay/regress/<prop>/*.txt: in-package tests on the real kernel, each passing on the unchanged tree) are injected
+// one by one with `go test -overlay` and run against the tree under check. A demonstration that fails three times in a
+// row is reported as a scenario failing on the real code; one that does not compile against the tree (it may use
+// unexported names the tree no longer has) is skipped and counted.
+func regressPack(prop string, rep *checkReport) map[string]interface{} {
+	files, _ := filepath.Glob(filepath.Join(verifRoot(), "replay", "regress", prop, "*.txt"))
+	if len(files) == 0 {
+		return nil
+	}
+	sort.Strings(files)
+	type outcome struct {
+		file, status, out string
+	}
+	results := make([]outcome, len(files))
+	var wg sync.WaitGroup
+	sem := make(chan struct{}, 4)
+	testRe := regexp.MustCompile(`(?m)^func (Test[A-Za-z0-9_]*)`)
+	for i, f := range files {
+		wg.Add(1)
+		sem <- struct{}{}
+		go func(i int, f string) {
+			defer wg.Done()
+			defer func() { <-sem }()
+			src, err := os.ReadFile(f)
+			if err != nil {
+				results[i] = outcome{f, "skipped", err.Error()}
+				return
+			}
+			var tests []string
+			for _, m := range testRe.FindAllStringSubmatch(string(src), -1) {
+				tests = append(tests, m[1])
+			}
+			pkg, dest := ".", repoDir()
+			if regexp.MustCompile(`(?m)^package ztest`).Match(src) {
+				pkg, dest = "./internal/ztest/", filepath.Join(repoDir(), "internal", "ztest")
+			}
+			dir, err := os.MkdirTemp("", "regress.")
+			if err != nil {
+				results[i] = outcome{f, "skipped", err.Error()}
+				return
+			}
+			defer os.RemoveAll(dir)
+			ov := filepath.Join(dir, "ov.json")
+			b, _ := json.Marshal(map[string]interface{}{"Replace": map[string]string{
+				filepath.Join(dest, "zz_regress_"+strings.TrimSuffix(filepath.Base(f), ".txt")): f}})
+			os.WriteFile(ov, b, 0o644)
+			last := ""
+			for attempt := 0; attempt < 3; attempt++ {
+				cmd := exec.Command("go", "test", "-overlay", ov, "-vet=off", "-count=1", "-timeout", "180s", "-run", "^("+strings.Join(tests, "|")+")$", pkg)
+				cmd.Dir = repoDir()
+				cmd.Env = append(os.Environ(), "GOFLAGS=-mod=mod", "GOPROXY=off", "GOSUMDB=off", "GOTOOLCHAIN=local")
+				out, err := cmd.CombinedOutput()
+				last = string(out)
+				if err == nil {
+					results[i] = outcome{f, "passed", ""}
+					return
+				}
+				if strings.Contains(last, "[build failed]") || strings.Contains(last, "[setup failed]") {
+					results[i] = outcome{f, "skipped", "does not compile against this tree: " + firstLines(last, 3)}
+					return
+				}
+			}
+			results[i] = outcome{f, "failed", last}
+		}(i, f)
+	}
+	wg.Wait()
+	passed, skipped := 0, 0
+	var failed []string
+	evDir := filepath.Join(verifRoot(), "evidence")
+	if d := os.Getenv("VERIF_EVIDENCE_DIR"); d != "" {
+		evDir = d
+	}
+	for _, r := range results {
+		name := strings.TrimSuffix(filepath.Base(r.file), ".txt")
+		switch r.status {
+		case "passed":
+			passed++
+		case "skipped":
+			skipped++
+		case "failed":
+			failed = append(failed, name)
+			rdir := filepath.Join(evDir, "replay", prop)
+			os.MkdirAll(rdir, 0o755)
+			path := filepath.Join(rdir, "regress_"+nonFile.ReplaceAllString(name, "_")+".replay.json")
+			b, _ := json.MarshalIndent(map[string]interface{}{"property": prop, "obligation": "regression scenario " + name, "reproduced_on_real_code": true,
+				"how": "go test -overlay (replay/regress/" + prop + "/" + filepath.Base(r.file) + " injected into the package of the tree under check), failed three times in a row",
+				"output": firstLines(r.out, 40)}, "", " ")
+			os.WriteFile(path, b, 0o644)
+			fmt.Printf("scenario regress:%s fails on the real code: %s\n", name, scenarioWhy(r.out))
+			rep.violations = append(rep.violations, fmt.Sprintf("VIOLATION property=%s replay=%s", prop, path))
+		}
+	}
+	return map[string]interface{}{"demonstrations": len(files), "passed": passed, "skipped_not_compiling": skipped, "failed": failed,
+		"label": "real-kernel regression scenarios: the demonstrations of the seeded changes recorded for this property, each of which passes on the unchanged tree"}
+}
+
 func runCanaries(prop string, rep *checkReport) map[string]interface{} {
 	b, err := os.ReadFile(filepath.Join(verifRoot(), "selftest", "corpus.json"))
 	if err != nil {
